@@ -234,7 +234,20 @@ func checkC20(w *World, r *Report) {
 			// timeout > 0: SIGINT now, SIGKILL after Sleep(timeout) in a goroutine — unconditionally
 			delayedOK := false
 			if delayed != nil {
-				dr := w.EnumPaths(delayed, EnumOpts{Inline: true})
+				// the delayed closure may belong to a helper of the watcher (terminate(pid, timeout)): its
+				// captured parameters are then read as what the watcher passes to that helper
+				var penv map[*ssa.Parameter]ssa.Value
+				if host := delayed.Parent(); host != nil && host != watcher && host != handler && host != mk {
+					for _, ci := range findCalls(watcher, func(_ string, c *ssa.CallCommon) bool { return c.StaticCallee() == host }) {
+						penv = map[*ssa.Parameter]ssa.Value{}
+						for i, prm := range host.Params {
+							if i < len(ci.Common().Args) {
+								penv[prm] = w.Resolve(ci.Common().Args[i])
+							}
+						}
+					}
+				}
+				dr := w.EnumPaths(delayed, EnumOpts{Inline: true, Params: penv})
 				delayedOK = len(dr.Paths) > 0
 				for _, dp := range dr.Paths {
 					slept, killed := -1, -1
